@@ -45,6 +45,7 @@ type FuncContract struct {
 	File        string
 	Line        int
 	Used        bool
+	MergedFrom  *FuncContract // a caller package's trusted additions merged into this copy
 }
 
 type GhostFunc struct {
